@@ -87,6 +87,8 @@ var transTargets = []transTarget{
 	// C10
 	{"message/kakfamessagereceiver.go", "KafkaMessageReceiver", "processMessage", "", "mrProcessMessage"},
 	{"message/kakfamessagereceiver.go", "KafkaMessageReceiver", "buildPartitionAssignments", "loop0", "mrStartOffsetBody"},
+	{"message/kakfamessagereceiver.go", "KafkaMessageReceiver", "processEvent", "", "mrProcessEvent"},
+	{"message/kakfamessagereceiver.go", "KafkaMessageReceiver", "processInitBuffer", "loop0", "mrInitBufferBody"},
 	// C11
 	{"executor/message.go", "Executor", "deliverMessageToNode", "", "exDeliverToNode"},
 	// C12
@@ -536,6 +538,19 @@ func (t *translator) stmt(s ast.Stmt) []string {
 			}
 			return "(.ret [" + strings.Join(es, ", ") + "])"
 		})
+	case *ast.TypeSwitchStmt:
+		// switch e := x.(type) { case T1: A  case T2: B ... }: which case matches is the input "typeswitch#0" (the index of the
+		// clause in source order; the number of clauses = no clause matches)
+		{
+			subject := exprString(x.Assign)
+			out := []string{fmt.Sprintf("(.call [(\"$ts\", \"typeswitch#0\")] %s [])", leanStr("typeswitch "+subject))}
+			chain := ".skip"
+			for i := len(x.Body.List) - 1; i >= 0; i-- {
+				cc := x.Body.List[i].(*ast.CaseClause)
+				chain = fmt.Sprintf("(.ite (.eq (.var \"$ts\") (.lit %d))\n    (blk [%s])\n    %s)", i, strings.Join(t.stmts(cc.Body), ",\n    "), chain)
+			}
+			return append(out, chain)
+		}
 	case *ast.SelectStmt:
 		// select { case ch <- v: A  default: B }: a non-blocking send; whether the channel has room is the input "room <ch>"
 		if len(x.Body.List) == 2 {
